@@ -429,10 +429,82 @@ impl<'a> Ref<'a> {
                         return Unspec;
                     }
                 }
+                if acc == Yes && !self.ts_nullish && self.quirk.is_none() && !self.strict_nullish_variant_exists(d, v, fuel) {
+                    // "TypeScript's membership read under the conventions" has two readings for an intersection whose
+                    // members only agree on a nullish value of *different* kinds ({c: null} & {c?: string} at c):
+                    // member by member under null ~ undefined the value is in, while the TypeScript type has no value
+                    // there at all (null & (string | undefined) is never).  The statement does not pin which; a value
+                    // that is a member under the conventions but none of whose null/undefined/absent respellings is a
+                    // member under TypeScript's own reading is left out of the comparison.
+                    return Unspec;
+                }
                 acc
             }
             D::Ref(i) => self.member_fuel(self.env.get(*i), v, fuel - 1),
         }
+    }
+
+    /// Is some respelling of `v` (each nullish property value / element independently null, undefined or, for
+    /// properties, absent) definitely a member of `d` under TypeScript's own reading of null and undefined (whatever
+    /// exactOptionalPropertyTypes is set to)?  Bounded: with more
+    /// than 5 nullish positions the answer is "no" (which only widens the unspecified zone).
+    fn strict_nullish_variant_exists(&self, d: &D, v: &JsVal, fuel: usize) -> bool {
+        fn count(v: &JsVal) -> usize {
+            match v {
+                JsVal::Undef | JsVal::Null => 1,
+                JsVal::Arr(xs) | JsVal::Set(xs) => xs.iter().map(count).sum(),
+                JsVal::Obj(kv, _) => kv.iter().map(|(_, x)| count(x)).sum(),
+                JsVal::Map(kv) => kv.iter().map(|(a, b)| count(a) + count(b)).sum(),
+                _ => 0,
+            }
+        }
+        // digits of `code` in base 3 choose the respelling of each nullish position, in traversal order
+        fn build(v: &JsVal, code: &mut usize, in_obj: bool) -> Option<JsVal> {
+            match v {
+                JsVal::Undef | JsVal::Null => {
+                    let c = *code % 3;
+                    *code /= 3;
+                    match c {
+                        0 => Some(JsVal::Null),
+                        1 => Some(JsVal::Undef),
+                        _ => {
+                            if in_obj {
+                                None
+                            } else {
+                                Some(v.clone())
+                            }
+                        }
+                    }
+                }
+                JsVal::Arr(xs) => Some(JsVal::Arr(xs.iter().map(|x| build(x, code, false).unwrap()).collect())),
+                JsVal::Set(xs) => Some(JsVal::Set(xs.iter().map(|x| build(x, code, false).unwrap()).collect())),
+                JsVal::Map(kv) => Some(JsVal::Map(kv.iter().map(|(a, b)| (build(a, code, false).unwrap(), build(b, code, false).unwrap())).collect())),
+                JsVal::Obj(kv, p) => Some(JsVal::Obj(kv.iter().filter_map(|(k, x)| build(x, code, true).map(|y| (k.clone(), y))).collect(), p.clone())),
+                other => Some(other.clone()),
+            }
+        }
+        let n = count(v);
+        if n == 0 {
+            return true;
+        }
+        if n > 5 {
+            return false;
+        }
+        let mut strict = Ref::new(self.env, self.mode);
+        strict.ts_nullish = true;
+        strict.du_model = self.du_model;
+        let total = 3usize.pow(n as u32);
+        for code in 0..total {
+            let mut c = code;
+            if let Some(x) = build(v, &mut c, false) {
+                // a definite yes only: `c?: T` against an explicit undefined depends on exactOptionalPropertyTypes, and a
+                // required `c: undefined` against an absent c on whether absent is undefined - neither is pinned
+                if strict.member_fuel(d, &x, fuel.saturating_sub(1).max(1)) == Yes {
+                    return true;
+                }
+            }
+        }
+        false
     }
 
     /// What the compiler extracts from a union member when it looks for a discriminated union (printer.rs,
